@@ -50,6 +50,13 @@ func WireSchema(t *rapid.T, o *WireOpts, depth int) ref.Schema {
 		return ref.Schema{Kind: "array", Items: &it}
 	case "map":
 		it := WireSchema(t, o, depth+1)
+		if Uniform(t, "fatMapValue", 25) == 0 {
+			// values wider than 128 bytes in memory (the runtime keeps such map elements indirectly)
+			it = ref.Schema{Kind: "record", Name: o.name("Fat")}
+			for i, n := 0, 15+Uniform(t, "fatN", 12); i < n; i++ {
+				it.Fields = append(it.Fields, ref.Field{Name: fmt.Sprintf("w%d", i), Type: ref.Prim([]string{"long", "long", "double", "string"}[Uniform(t, "fatKind", 4)])})
+			}
+		}
 		return ref.Schema{Kind: "map", Values: &it}
 	case "union":
 		return wireUnion(t, o, depth)
